@@ -1,8 +1,9 @@
 import Bmc.Driver.Prim
 import Bmc.Driver.DecBasic
+import Bmc.Driver.DecCore
 open Bmc.Driver
 
-def decTables : List (String × DecFn) := decTableBasic
+def decTables : List (String × DecFn) := decTableBasic ++ decTableCore
 
 def evalDec (args : List String) : String :=
   match args with
